@@ -39,6 +39,8 @@ structure Run where
   opts : Options
   real : DecOut.RealResult
   micros : Nat
+  /-- hook counters: (update_stages calls, statements walked, add_types_recursive calls) -/
+  visits : Option (Nat × Nat × Nat) := none
 
 def oneLine (s : String) : String :=
   String.ofList (s.toList.map fun c => if c == '\n' || c == '\r' || c == '|' then ' ' else c)
